@@ -1,4 +1,4 @@
-CONSTANTS Widths = {2, 4, 6, 7, 8, 9, 11, 13, 20}
+CONSTANTS Widths = {2, 5, 7, 9, 12, 13, 20}
           Deep = TRUE
           Warm = 2
 INIT Init
